@@ -211,6 +211,9 @@ func advCallsSetup(s *rt.Sim, tier string) func() {
 		}
 		if kind != 3 && chance("cfg.x", 1, 10) {
 			kind = 4 // DMQ client connection (local-message-submission / -notification)
+			if chance("cfg.x", 1, 2) {
+				kind = 5 // DMQ server connection
+			}
 		}
 		co := connOpts{magic: 42}
 		switch kind {
@@ -222,6 +225,8 @@ func advCallsSetup(s *rt.Sim, tier string) func() {
 			co.server = true
 		case 4:
 			co.dmq = true
+		case 5:
+			co.dmq, co.server = true, true
 		}
 		// application callbacks
 		csServed := 0
@@ -278,7 +283,24 @@ func advCallsSetup(s *rt.Sim, tier string) func() {
 				return nil
 			}),
 		)
-		opts := append(co.options(pair.A), ouroboros.WithChainSyncConfig(csCfg), ouroboros.WithBlockFetchConfig(bfCfg))
+		// tx-submission outbound application whose mempool is empty: a blocking request makes it
+		// wait, and the only signal the library gives a callback for "the connection is gone"
+		// is CallbackContext.DoneChan
+		txCallbackBlocked := 0
+		txCfg := txsubmission.NewConfig(
+			txsubmission.WithRequestTxIdsFunc(func(ctx txsubmission.CallbackContext, blocking bool, ack uint16, req uint16) ([]txsubmission.TxIdAndSize, error) {
+				if !blocking {
+					return []txsubmission.TxIdAndSize{{TxId: txsubmission.TxId{EraId: 5, TxId: [32]byte{9, 9}}, Size: 100}}, nil
+				}
+				txCallbackBlocked++
+				<-ctx.DoneChan
+				return nil, txsubmission.ErrStopServerProcess
+			}),
+			txsubmission.WithRequestTxsFunc(func(ctx txsubmission.CallbackContext, ids []txsubmission.TxId) ([]txsubmission.TxBody, error) {
+				return nil, nil
+			}),
+		)
+		opts := append(co.options(pair.A), ouroboros.WithChainSyncConfig(csCfg), ouroboros.WithBlockFetchConfig(bfCfg), ouroboros.WithTxSubmissionConfig(txCfg))
 		peer := newRawPeer(pair.B)
 		var conn *ouroboros.Connection
 		var cErr error
@@ -288,7 +310,7 @@ func advCallsSetup(s *rt.Sim, tier string) func() {
 			connRet = true
 		}()
 		if co.server {
-			if rawProposeAndAwait(peer, (connOpts{ntn: co.ntn, magic: 42}).table().m) == 0 {
+			if rawProposeAndAwait(peer, (connOpts{ntn: co.ntn, dmq: co.dmq, magic: 42}).table().m) == 0 {
 				return
 			}
 		} else {
@@ -309,6 +331,17 @@ func advCallsSetup(s *rt.Sim, tier string) func() {
 		csLabel, csId := "chainsync-ntc", chainsync.ProtocolIdNtC
 		if co.ntn {
 			csLabel, csId = "chainsync-ntn", chainsync.ProtocolIdNtN
+		}
+		if kind == 5 {
+			// the peer asks for messages with a blocking request; the server's queue is empty, so
+			// the request stays unanswered until the connection ends
+			calls = append(calls, apiCall{"dmq.server.blocking-request", "keepalive", specKeepAlive, 0x7ffd, func(c *ouroboros.Connection) error {
+				if chance("op", 3, 4) {
+					_ = peer.sendMsg(15, false, sampleBytes("localmessagenotification", 0, 1, 0))
+					rt.Hit("advcalls.dmq-blocking-request-sent")
+				}
+				return nil
+			}})
 		}
 		if kind == 4 {
 			// no conversation at all: the connection is set up, lives for a while and ends; what
@@ -363,6 +396,15 @@ func advCallsSetup(s *rt.Sim, tier string) func() {
 					}
 					sleep(oneOf("op", time.Second, 20*time.Second))
 					return c.BlockFetch().Client.Stop()
+				}},
+				apiCall{"txsubmission.client.blocking-callback", "txsubmission", specTxSubmission, 4, func(c *ouroboros.Connection) error {
+					// the outbound side opens the protocol; the responder then sends requests, and a
+					// blocking one parks the application callback on CallbackContext.DoneChan
+					c.TxSubmission().Client.Init()
+					for i := 0; i < 120 && txCallbackBlocked == 0; i++ {
+						sleep(time.Second)
+					}
+					return nil
 				}},
 				apiCall{"peersharing.GetPeers", "peersharing", specPeerSharing, 10, func(c *ouroboros.Connection) error {
 					if c.PeerSharing() == nil {
@@ -455,7 +497,7 @@ func advCallsSetup(s *rt.Sim, tier string) func() {
 		call := calls[pick("op", len(calls))]
 		resp := &advResponder{peer: peer, spec: call.spec, label: call.label, id: call.id, asServer: !co.server, state: call.spec.Init,
 			behaviour: advBehaviours[pick("op", len(advBehaviours))], deviateAt: pick("op", 3)}
-		if kind == 4 {
+		if kind == 4 || kind == 5 {
 			resp.passive = true
 		}
 		if stallArm {
